@@ -13,8 +13,8 @@ from props import regex_common as rc
 RULE = ("every sequence of up to 4 tokens (thorough 5) over the 12 documented token kinds a b . | & ^ * + ? {1,2} ( ) and "
         "blank, every sequence of 5 (thorough 6-7) over one representative per token class, random longer sequences and "
         "random valid expressions: outcome kind of regex.validate, outcome kind of NFA.from_regex, their agreement, and "
-        "agreement of both with the model; isequal/issubset/issuperset on random pairs of valid expressions (many built to "
-        "be equal / included) over a common alphabet vs the model and vs the word-level evaluation of the denotations; "
+        "agreement of both with the model (bounds with different digit counts such as {2,10} and {10,9} included); isequal/issubset/issuperset on random pairs of valid expressions (many built to "
+        "be equal / included) over a common alphabet, half of them over an alphabet not used before in the process and right after regex.validate on the same expressions, vs the model and vs the word-level evaluation of the denotations; "
         "distinct = distinct string (pair of strings); non-trivial = at least 2 tokens (helpers: the answer is not the "
         "same for all three)")
 
@@ -72,6 +72,8 @@ def derive_pair(rng, sigma):
         return ("cat", ("rep", r, 0, 0), s), s, "eq"
     if k < 0.12:
         return r, ("union", r, r), "eq"
+    if k < 0.17:
+        return ("union", ("eps",), r), ("opt", r), "eq"
     if k < 0.22:
         return ("star", ("star", r)), ("star", r), "eq"
     if k < 0.32:
@@ -93,7 +95,7 @@ def derive_pair(rng, sigma):
     return r, s, None
 
 
-def check_pairs(ctx, pairs, tag):
+def check_pairs(ctx, pairs, tag, validate_first=False):
     """pairs: (s1, s2, sigma str, r1, r2, known) with r1/r2 ASTs (or None for replays)."""
     items = []
     for s1, s2, sigma, r1, r2, known in pairs:
@@ -101,6 +103,11 @@ def check_pairs(ctx, pairs, tag):
     answers = ctx.driver.batch(items)
     for (s1, s2, sigma, r1, r2, known), ans in zip(pairs, answers):
         model = [enc.dec_res(a) for a in ans]
+        if validate_first:
+            # a query after another query: validation of the same expressions first must not change the answers
+            outcome(lambda: regex.validate(s1))
+            outcome(lambda: regex.validate(s2))
+            ctx.tally("helpers_after_validate")
         impl = [outcome(lambda: f(s1, s2, input_symbols=set(sigma)))
                 for f in (regex.isequal, regex.issubset, regex.issuperset)]
         problems, confirmed = [], False
@@ -137,7 +144,8 @@ def check_pairs(ctx, pairs, tag):
         if problems:
             ctx.violation(f"helpers on ({s1!r}, {s2!r}, input_symbols={sigma!r}): " + "; ".join(problems),
                           {"kind": "pair", "re1": s1, "re2": s2, "input_symbols": sigma, "ast1": repr(r1),
-                           "ast2": repr(r2), "known": known, "problems": problems, "tag": tag}, confirmed=confirmed)
+                           "ast2": repr(r2), "known": known, "problems": problems, "tag": tag,
+                           "validate_first": validate_first}, confirmed=confirmed)
 
 
 def seqs(kinds, n):
@@ -173,14 +181,26 @@ def run(ctx):
     for _ in range(ctx.n(300, 4000)):
         sigma = rng.choice(["a", "ab", "abc"])
         more.append(rc.print_ast(rc.rand_ast(rng, sigma, rng.choice([2, 3, 4])), rng, 0.15, 0.15))
-    more += ["", " ", "\t", "  \t ", "( )", "a{3,1}", "a{1,1}", "\n", "a\nb", "a\r", "a{2,1}|", "(a{2,1}", "|a{2,1}"]
+    # one quantifier whose bounds have different digit counts (nesting them would only make the automata large)
+    for _ in range(ctx.n(60, 600)):
+        q = rng.choice(["{2,10}", "{10,9}", "{9,12}", "{11,2}", "{10,}", "{,10}", "{9,10}", "{10,10}"])
+        pre = "".join(rng.choice(["a", "b", "(ab)", "a|", "b*", "(a|b)", "."]) for _ in range(rng.randint(0, 2)))
+        post = "".join(rng.choice(["a", "b", "|b", "c", "*", ")", ""]) for _ in range(rng.randint(0, 2)))
+        more.append(pre + rng.choice(["a", "(ab)", "(a|b)", ".", ""]) + q + post)
+    more += ["", " ", "\t", "  \t ", "( )", "a{3,1}", "a{1,1}", "\n", "a\nb", "a\r", "a{2,1}|", "(a{2,1}", "|a{2,1}", "a{2,10}", "a{10,9}", "(ab){9,12}",
+             "(ab){11,2}", "a{10,10}", "a{9,10}", "a{10,2}", "a{02,3}", "a{3,02}", "a{10,}", "a{,10}"]
     more = list(dict.fromkeys(more))
     for i in range(0, len(more), 2000):
         check_strings(ctx, more[i:i + 2000], "random")
     # helpers
     pairs = []
-    for _ in range(ctx.n(260, 5000)):
-        sigma = rng.choice(["a", "ab", "ab", "abc"])
+    npairs = ctx.n(260, 5000)
+    for j in range(npairs):
+        if (j // 100) % 2 == 0:
+            # the batches that call validate first: alphabets that were not used before in this process
+            sigma = "".join(sorted(rng.sample(rc.POOL[:52], rng.choice([1, 2, 2, 3]))))
+        else:
+            sigma = rng.choice(["a", "ab", "ab", "abc"])
         r1, r2, known = derive_pair(rng, sigma)
         if rng.random() < 0.3:
             r1, r2 = r2, r1
@@ -189,7 +209,7 @@ def run(ctx):
         s2 = rc.print_ast(r2, rng, 0.1, 0.1)
         pairs.append((s1, s2, sigma, r1, r2, known))
     for i in range(0, len(pairs), 100):
-        check_pairs(ctx, pairs[i:i + 100], "random")
+        check_pairs(ctx, pairs[i:i + 100], "random", validate_first=(i // 100) % 2 == 0)
 
 
 def replay(ctx, case):
@@ -198,5 +218,6 @@ def replay(ctx, case):
     else:
         r1 = eval(case["ast1"]) if case.get("ast1") not in (None, "None") else None
         r2 = eval(case["ast2"]) if case.get("ast2") not in (None, "None") else None
-        check_pairs(ctx, [(case["re1"], case["re2"], case["input_symbols"], r1, r2, case.get("known"))], "replay")
+        check_pairs(ctx, [(case["re1"], case["re2"], case["input_symbols"], r1, r2, case.get("known"))], "replay",
+                    validate_first=case.get("validate_first", False))
     print("replay:", "VIOLATION reproduced" if ctx.violations else "no disagreement")
